@@ -183,6 +183,17 @@ Definition sqlite_commit (st : wstate) : wstate :=
   mkW (w_open st) (w_hdr st) (w_seen st) (w_adesc st) (w_awr st) [] (w_count st)
       (FileSqlite (tbl_insert_all (w_buf st) (tables_of st))).
 
+(* the stdout target *)
+Inductive okind := OStream | OPrinter | OJson | OCsv | OLine | OText | OAvro.
+   (* OStream: the stream adapter on a stdout that is not a terminal; OPrinter: on a terminal (RecordPrinter) *)
+Record oshape := mkOShape {
+  o_write_delivers : bool;     (* write() leaves nothing in sys.stdout's buffer (it flushes after every record) *)
+  o_flush_delivers : bool;     (* flush() empties the buffer *)
+  o_close_delivers : bool;     (* close() empties the buffer *)
+  o_write_after_close : bool }.  (* write() on a closed writer still puts the record into sys.stdout's buffer (no error) *)
+Record ostate := mkO { o_open : bool; o_pending : list rec; o_delivered : list rec }.
+Definition o_init : ostate := mkO true [] [].
+
 Section OneWriter.
 Variable sh : shapes.
 Variable batch : nat.       (* SqliteWriter.batch_size *)
@@ -514,6 +525,64 @@ Fixpoint pt_run (k : adapter) (st : pstate) (h : list pop) : pstate * list outco
                         let (st'', os) := pt_run k st' h' in (st'', o :: os)
   | PClose :: h' => let (st'', os) := pt_run k (pt_close k st) h' in (st'', Ok :: os)
   end.
+
+(* ------------------------------------------------------------------------------------------------ *)
+(* a writer on the STDOUT target ("-"): sys.stdout is a buffered file object the writer never closes.  What has
+   been DELIVERED (has left the buffer) and what is still PENDING in the buffer.  Framing (stream header, Avro header)
+   is not modelled here: only which records are out.  Per writer kind three observed facts (GENERATED):             *)
+
+Definition o_deliver (st : ostate) : ostate := mkO (o_open st) [] (o_delivered st ++ o_pending st).
+
+Section StdoutKind.
+Variable os : oshape.
+
+Definition o_write (st : ostate) (r : rec) : ostate * outcome :=
+  if o_open st then
+    let st1 := mkO true (o_pending st ++ [r]) (o_delivered st) in
+    ((if o_write_delivers os then o_deliver st1 else st1), Ok)
+  else if o_write_after_close os && negb (match o_delivered st ++ o_pending st with [] => true | _ => false end)
+       then (mkO false (o_pending st ++ [r]) (o_delivered st), Ok)   (* the csv.DictWriter of the earlier records keeps sys.stdout *)
+  else (st, Raised).
+Definition o_flush (st : ostate) : ostate * outcome :=
+  ((if o_open st && o_flush_delivers os then o_deliver st else st), Ok).      (* closed: self.fp is None, nothing *)
+Definition o_close (st : ostate) : ostate * outcome :=
+  if o_open st then
+    let st1 := if o_close_delivers os then o_deliver st else st in
+    (mkO false (o_pending st1) (o_delivered st1), Ok)                         (* stdout itself is not closed *)
+  else (st, Ok).
+Fixpoint o_calls (st : ostate) (cs : list mcall) : ostate * outcome :=
+  match cs with
+  | [] => (st, Ok)
+  | c :: cs' =>
+      match (match c with MFlush => o_flush st | MClose => o_close st end) with
+      | (st', Ok) => o_calls st' cs'
+      | (st', Raised) => (st', Raised)
+      end
+  end.
+Definition o_step (st : ostate) (o : op) : ostate * outcome :=
+  match o with
+  | Write r => o_write st r
+  | Flush => o_flush st
+  | Close => o_close st
+  | WithExit => o_calls st (sh_exit sh)
+  | WithExitExc => o_calls st (sh_exit_exc sh)
+  | Del => o_calls st (sh_del sh)
+  end.
+(* final state, the records whose write() returned normally, the outcomes, the delivered records after each operation *)
+Fixpoint o_run (st : ostate) (h : list op) : ostate * list rec :=
+  match h with
+  | [] => (st, [])
+  | o :: h' =>
+      let (st', out) := o_step st o in
+      let (st'', acc) := o_run st' h' in
+      (st'', match o, out with Write r, Ok => r :: acc | _, _ => acc end)
+  end.
+Fixpoint o_trace (st : ostate) (h : list op) : list (outcome * list rec) :=
+  match h with
+  | [] => []
+  | o :: h' => let (st', out) := o_step st o in (out, o_delivered st') :: o_trace st' h'
+  end.
+End StdoutKind.
 
 End OneWriter.
 
